@@ -30,7 +30,7 @@ fn droppable(c: &ConeSpec) -> bool {
 }
 
 pub fn gen_inf(t: &mut Tape) -> InfCase {
-    let cfg = GenCfg { nmax: 6, mmax: 16, allow_psd: true, allow_nonsym: true, allow_empty_cones: true, psd_max: 3, soc_max: 4, magnitude: 2.0, near_prob: 0.25, extreme_alpha: true, full_rank: false };
+    let cfg = GenCfg { nmax: 6, mmax: 16, allow_psd: true, allow_nonsym: true, allow_empty_cones: true, psd_max: 3, soc_max: 4, magnitude: 2.0, near_prob: 0.25, extreme_alpha: true, full_rank: false, p_scale_decades: 0.0 };
     let n = t.usize_in(1, cfg.nmax);
     // cone lists rich in nonnegative cones and singletons, in random order
     let mut cones = vec![];
